@@ -219,6 +219,23 @@ def run(prog, chk):
         m = re.match(r"^(\w+)\.length\(\)$", q.no_casts(f.r(a[2])))
         if m:
             cmps.append((c, q.alias_root(f, m.group(1))))     # through the parameter of an inlined helper
+            continue
+        # the length kept in a local: it is the whole prefix when it was taken from prefix.length(), or when the prefix was just resized to it
+        pm = re.match(r"^\(?(\w+)\.operator const char \*\(\)\)?$|^(\w+)$", q.no_casts(f.r(a[1])).strip())
+        pv = (pm.group(1) or pm.group(2)) if pm else None
+        if pv is None:
+            continue
+        lt = q.no_casts(f.r(a[2]))
+        whole = q.no_casts(q.xr(f, a[2])) == "%s.length()" % pv
+        if not whole:
+            for r_ in q.calls(f):
+                nr = f.nodes[r_]
+                if nr["k"] == "CXXMemberCallExpr" and (nr.get("callee") or "").endswith("String::resize") and q.call_object(f, r_) is not None and \
+                   q.no_casts(f.r(q.call_object(f, r_))) == pv and q.call_args(f, r_) and q.no_casts(f.r(q.call_args(f, r_)[0])) == lt and \
+                   f.dominates_pos(f.node_pos(r_), f.node_pos(c)):
+                    whole = True
+        if whole:
+            cmps.append((c, q.alias_root(f, pv)))
     if not cmps:
         chk.bad("C19.f", f, "no-prefix-comparison", "%s:%s" % (f.file, f.line), "getRelativePath no longer compares the simplified target against a prefix of the simplified source")
     for c, var in cmps:
